@@ -92,26 +92,51 @@ func (p *Profile) ShowFrom(showFrom *regexp.Regexp) (matched bool) {
 	if showFrom == nil {
 		return false
 	}
-	// showFromLocs stores location IDs that matched ShowFrom.
-	showFromLocs := make(map[uint64]bool)
-	// Apply to locations.
+	// showFromLocs maps the ID of each location that matched ShowFrom to the
+	// location to use when it is the highest match of a sample: the location
+	// itself, or a copy without the lines above the last matching line. The
+	// original location is left intact because other samples may contain it
+	// below their highest match, where all its lines must be kept.
+	showFromLocs := make(map[uint64]*Location)
+	var nextID uint64
 	for _, loc := range p.Location {
-		if filterShowFromLocation(loc, showFrom) {
-			showFromLocs[loc.ID] = true
-			matched = true
+		if loc.ID >= nextID {
+			nextID = loc.ID + 1
 		}
 	}
+	var trimmed []*Location
+	// Apply to locations.
+	for _, loc := range p.Location {
+		if m := loc.Mapping; m != nil && showFrom.MatchString(m.File) {
+			showFromLocs[loc.ID] = loc
+		} else if i := loc.lastMatchedLineIndex(showFrom); i < 0 {
+			continue
+		} else if i == len(loc.Line)-1 {
+			showFromLocs[loc.ID] = loc
+		} else {
+			top := *loc
+			top.ID = nextID
+			nextID++
+			top.Line = append([]Line(nil), loc.Line[:i+1]...)
+			showFromLocs[loc.ID] = &top
+			trimmed = append(trimmed, &top)
+		}
+	}
+	matched = len(showFromLocs) > 0
 	// For all samples, strip locations after the highest matching one.
 	s := make([]*Sample, 0, len(p.Sample))
 	for _, sample := range p.Sample {
 		for i := len(sample.Location) - 1; i >= 0; i-- {
-			if showFromLocs[sample.Location[i].ID] {
-				sample.Location = sample.Location[:i+1]
+			if top := showFromLocs[sample.Location[i].ID]; top != nil {
+				locs := append([]*Location(nil), sample.Location[:i+1]...)
+				locs[i] = top
+				sample.Location = locs
 				s = append(s, sample)
 				break
 			}
 		}
 	}
+	p.Location = append(p.Location, trimmed...)
 	p.Sample = s
 	return matched
 }
